@@ -135,7 +135,9 @@ class Engine(_Base, ExprMixin, CallMixin, StmtMixin):
                 s.alloc = a
                 for inv in spec.get('assume', []):
                     s.assume(self.eval_clause(s, inv, self.visible_env(s), self.cur_info, old_st=self.entry_state))
-            for cls in ['asyncio:CancelledError'] + list(spec.get('raises', [])):
+            # 'no_cancel': the awaited expression is a coroutine call whose contract already accounts for cancellation
+            # (CancelledError is delivered inside the callee, at one of ITS suspension points)
+            for cls in ([] if spec.get('no_cancel') else ['asyncio:CancelledError']) + list(spec.get('raises', [])):
                 s2 = s.copy()
                 self.raise_exc(s2, self.resolve_class_name(self.cur_info, cls))
                 s2.exc[1].exact = False          # any subclass may be raised
